@@ -104,3 +104,23 @@ Proof.
   - intros f Hf. vm_compute in Hf. destruct Hf as [<-|[<-|[]]]; split; reflexivity.
   - vm_compute. repeat constructor; simpl; intuition discriminate.
 Qed.
+
+(* a complete archive beside a half-deleted folder (no metadata, no model, no samples): the archive is loaded *)
+Example archive_beside_partial_folder :
+  let a := write_fit spec_a in
+  let partial := {| f_path := f_path a; f_metadata := false; f_completed := false; f_marker := None; f_parent_file := None;
+                    f_written_id := "abc"; f_class := ""; f_keys := []; f_name := ""; f_tag := None; f_reload_id := "";
+                    f_model := ""; f_info := None; f_info_held := None; f_samples := None; f_load_error := None;
+                    f_jsons := ["search"; "stale_extra"]; f_analyses := [] |} in
+  let ds := [{| d_archive := Some a; d_folder := Some partial |}] in
+  wf search_classes gs_id_uses_folder false (unzip_all ds) /\
+  scrape search_classes gs_id_uses_folder false (unzip_all ds) []
+  = scrape search_classes gs_id_uses_folder false [overlay a (Some partial)] [] /\
+  option_map r_instance (match scrape search_classes gs_id_uses_folder false (unzip_all ds) [] with Loaded db => find_row "abc" db | _ => None end)
+  = Some (Some "i1").
+Proof.
+  split; [|split; vm_compute; reflexivity].
+  split.
+  - intros f Hf. vm_compute in Hf. destruct Hf as [<-|[]]. split; reflexivity.
+  - vm_compute. repeat constructor; simpl; intuition discriminate.
+Qed.
